@@ -166,6 +166,8 @@ class Executor:
                 return st.comp[key]
             if '.' in key:
                 base, attr = key.split('.', 1)
+                if base in getattr(self, 'entry_params', {}) and attr in self.entry_params[base].meta:
+                    return self.entry_params[base].meta[attr]
                 if base in st.env and attr in st.env[base].meta:
                     return st.env[base].meta[attr]
             if key in getattr(self, 'entry_params', {}):
@@ -233,7 +235,7 @@ class Executor:
 
     def mk_param(self, st, n, sort):
         sub = None
-        if sort.startswith('Opt:'):
+        if sort.startswith('Opt:') or sort.startswith('Star:'):
             sort = sort.split(':')[1]
         if ':' in sort:
             sort, sub = sort.split(':', 1)
@@ -649,7 +651,7 @@ class Executor:
                 k.exc(st2, v)
             elif v.sort == 'PyList':
                 self.for_unroll(s, v.meta['items'], st2, k)
-            elif v.sort == 'Iter':
+            elif v.sort == 'Iter' and not v.meta.get('nondet'):
                 self.for_semidet(s, v, st2, k)
             elif self.theory and self.theory.st_For(self, s, v, st2, k):
                 pass
@@ -676,8 +678,11 @@ class Executor:
 
         outer_active = tuple(st.ghost.get('active', ()))
 
+        loop_owns = not isinstance(s.iter, ast.Name)
+
         def drop(st2):
-            self.iter_close(st2, h)
+            if loop_owns:
+                self.iter_close(st2, h)
             st2.ghost['active'] = outer_active
             return st2
 
@@ -1302,6 +1307,10 @@ class Executor:
         if e.keywords and not (self.theory and self.theory.accept_keywords(self, e)):
             raise OutOfSubset('keyword arguments', e)
         f = e.func
+        if self.theory:
+            r = self.theory.call_name_ast(self, e, st)
+            if r is not None:
+                return r
         if isinstance(f, ast.Name) and f.id not in st.env:
             return self.call_name(e, f.id, st)
         if isinstance(f, ast.Attribute):
@@ -1453,6 +1462,14 @@ class Executor:
     def apply_contract(self, e, c, args, st):
         """Modular call: the caller sees the callee's contract only."""
         params = list(c.params)
+        if params and params[-1][1].startswith('Star:'):
+            # *args of the callee: the remaining positional arguments become one list
+            n = len(params) - 1
+            if len(args) >= n and all(a.sort == 'Term' for a in args[n:]):
+                out = 'nil'
+                for a in reversed(args[n:]):
+                    out = '(cons %s %s)' % (a.e, out)
+                args = args[:n] + [SV('TList', out)]
         if len(args) < len(params) and all(ps.startswith('Opt:') for _, ps in params[len(args):]):
             defaults = [ps.split(':', 2) for _, ps in params[len(args):]]
             for d in defaults:
@@ -1462,7 +1479,7 @@ class Executor:
             raise OutOfSubset('arity of call to %s' % c.name, e)
         ex = {}
         for (pn, psort), a in zip(c.params, args):
-            if psort.startswith('Opt:'):
+            if psort.startswith('Opt:') or psort.startswith('Star:'):
                 psort = psort.split(':')[1]
             want = psort.split(':')[0]
             if want == 'Str' and a.sort == 'Str':
